@@ -488,6 +488,12 @@ def _group_guard(run: Run, prog: Program, model: Model, f: FuncInfo, rec: Any) -
 
 U = "d42/utils/_rollout.py"
 MUTANTS = [
+    {"name": "optional equality also compares the classes of the keys", "rule": "OPTIONAL-KEY-EQ",
+     "edits": [("d42/declaration/types/_optional.py", "        return isinstance(other, self.__class__) and (self._key == other.key)",
+                "        return isinstance(other, self.__class__) and type(self._key) is type(other.key) and (self._key == other.key)")]},
+    {"name": "neutral: optional equality with an early return", "expect": "SILENT",
+     "edits": [("d42/declaration/types/_optional.py", "        return isinstance(other, self.__class__) and (self._key == other.key)",
+                "        if not isinstance(other, self.__class__):\n            return False\n        return bool(self._key == other.key)")]},
     {"name": "recursive call without separator=", "rule": "SEP-THREAD",
      "edits": [(U, "rollout(v, separator=separator) if isinstance(v, dict) else v", "rollout(v) if isinstance(v, dict) else v")]},
     {"name": "\".\".join for the tail", "rule": "SEP-THREAD",
